@@ -141,4 +141,20 @@ theorem serving_resumes (s : St) (hst : s.state = .unavailable) (hp : AllPolled 
 example : (run (init cfgEx) [.conn 1, .conn 0, .poll 9, .conn 1, .poll 9]).queue = [] ∧
     (run (init cfgEx) [.conn 1, .conn 0, .poll 9, .conn 1, .poll 9]).inflight = [(0, 1), (1, 0), (2, 1)] := by decide
 
+/-- **`poll` terminates** — the self-recursion `self.poll(cx)` is bounded by the scripts: in every
+history, a poll whose fuel exceeds `measure` (three per non-`Ready` answer still in some script or
+future incarnation, plus the rank of the state) never ends in the model's `.fuel` fault.  (The
+driver runs with fuel 10^6.) -/
+theorem poll_terminates (cfg : Cfg) (ops : List Op) (fuel : Nat)
+    (hfin : (run (init cfg) ops).finished = false) (hfl : (run (init cfg) ops).fault = none)
+    (hm : measure (run (init cfg) ops) < fuel) :
+    (stepY (run (init cfg) ops) (.poll fuel)).1.fault ≠ some .fuel := by
+  have hg := Good.run ops _ (Good.init cfg)
+  simp only [stepY, step, hfl, hfin, Option.isSome_none, Bool.or_self, Bool.false_eq_true, if_false]
+  have hg' : Good (emit (run (init cfg) ops) [.enter]) :=
+    ⟨hg.svc, hg.lg.plain (s' := emit (run (init cfg) ops) [.enter]) [.enter] (by intro e he; simp at he; subst he; exact ⟨rfl, rfl, rfl, rfl⟩) rfl rfl rfl rfl⟩
+  exact fuel_enough fuel _ hg' hfin (by show (run (init cfg) ops).fault ≠ _; rw [hfl]; simp) hm
+
+example : measure (init cfgEx) = 3 * 2 + 2 := by decide
+
 end ActixNet.C07
